@@ -1,0 +1,7 @@
+//go:build !verif
+
+package engine
+
+// schedulePoint is a no-op in regular builds. With the build tag `verif` it lets
+// a verification harness control the order in which workers deliver results.
+func schedulePoint(batchIndex int) {}
